@@ -23,6 +23,7 @@ CODES = [0, 7, 9] + list(range(0x100, 0x111)) + [0x200, 0x201, 0x202, 2**62 - 1]
 
 class C07(Prop):
     id = "C07"
+    thorough_rounds = 12   # thorough tier: this many independently seeded rounds of the random generators (duplicates dropped)
     modules = ["H3.Props.C07"]
     engines = ["iso"]
     design_ref = "DESIGN.md section 7, C07"
